@@ -70,6 +70,29 @@ def full_digest(d, cons):
     return h32(canon_value(d), [canon_value(c._serialize()) for c in cons])
 
 
+class Ext(object):
+    """Base class of property specific monitors plugged into Monitors.ext."""
+
+    def __init__(self, mon):
+        self.mon = mon
+        self.sim = mon.sim
+
+    def on_proc_start(self, p): pass
+    def on_submit(self, p, sub): pass
+    def on_callback(self, p, sub, res, err): pass
+    def on_send(self, p, dest, conn, msg): pass
+    def on_deliver(self, rcv, snd, conn, msg): pass
+    def on_state_change(self, p, old, new): pass
+    def on_escaped(self, p, sig, exc): pass
+    def on_serialize(self, p, data, id): pass
+    def on_load(self, p, data): pass
+    def on_chunk_in(self, p, data, done): pass
+    def on_kill(self, p): pass
+    def on_restart(self, old, new): pass
+    def after_step(self, p, action): pass
+    def end_of_run(self): pass
+
+
 class Monitors(object):
     def __init__(self, sim):
         self.sim = sim
@@ -100,6 +123,8 @@ class Monitors(object):
         self.cut_since = {}
         self.ext = []
         self.failed_pos = {}
+        self.commit_values = {}
+        self.last_voter = None
 
     # -- hooks used while building a process ------------------------------------------
     def conf_hooks(self, p, kw):
@@ -147,7 +172,13 @@ class Monitors(object):
         s = self.cur_sub
         if s is not None and s.get('bytes') is None:
             s['bytes'] = data
-            self.cmd2sub[data] = s
+            lst = self.cmd2sub.setdefault(data, [])
+            lst.append(s)
+            if len(lst) > 1:
+                # identical bytes (e.g. two lst.pop() calls): the model can still follow, but a
+                # callback can not be tied to one position; the uid based C02 clauses skip these
+                for x in lst:
+                    x['ambiguous'] = True
 
     def on_submit(self, p, sub):
         obj = p.obj
@@ -213,6 +244,9 @@ class Monitors(object):
             term = msg['term']
             cand = p.key if t == 'request_vote' else dest
             self.note_vote(p, term, cand)
+            if t == 'response_vote':
+                self.last_voter = p.key
+                self.sit['vote_granted'] += 1
         if t == 'append_entries':
             if 'prevLogIdx' in msg and msg.get('transmission') in (None, 'start'):
                 k = (p.key, p.inc, dest)
@@ -262,6 +296,16 @@ class Monitors(object):
                 self.sit['late_vote_reply'] += 1
         for e in self.ext:
             e.on_deliver(rcv, snd, conn, msg)
+
+    def on_kill(self, p):
+        self.obs['kills'] += 1
+        for e in self.ext:
+            e.on_kill(p)
+
+    def on_restart(self, old, new):
+        self.obs['restarts'] += 1
+        for e in self.ext:
+            e.on_restart(old, new)
 
     def on_conn_event(self, p, what, peer, conn):
         self.obs['conn_' + what] += 1
@@ -319,6 +363,17 @@ class Monitors(object):
         self.obs['snapshot_chunks_in'] += 1
         for e in self.ext:
             e.on_chunk_in(p, data, done)
+
+    def version_at(self, k):
+        v = 0
+        for pos in range(2, k + 1):
+            c = self.committed.get(pos)
+            if c is not None and cmd_type(c[1]) == VERSION:
+                try:
+                    v = _pickle.loads(c[1][1:])
+                except Exception:
+                    return None
+        return v
 
     # -- C20 -----------------------------------------------------------------------
     def before_tick(self, p):
@@ -430,18 +485,22 @@ class Monitors(object):
             term, cmd = self.committed[pos][:2]
             ct = cmd_type(cmd)
             if ct == REGULAR:
-                sub = self.cmd2sub.get(cmd)
-                if sub is None:
+                subs = self.cmd2sub.get(cmd)
+                if not subs:
                     self.model_broken = pos
                     break
-                if sub['uid'] in self.pos_of_uid:
-                    raise Violation('C02', 'committed_twice', 'uid %d committed at positions %d and %d'
-                                    % (sub['uid'], self.pos_of_uid[sub['uid']], pos))
-                self.pos_of_uid[sub['uid']] = pos
-                for (_, _, err, _) in sub['cbs']:
-                    if err in NEVER_APPLIED:
-                        raise Violation('C02', 'failed_but_committed', 'uid %d reported %s but is committed at %d'
-                                        % (sub['uid'], FAIL_NAMES[err], pos), reason=FAIL_NAMES[err])
+                sub = subs[0]
+                if not sub.get('ambiguous'):
+                    if sub['uid'] in self.pos_of_uid:
+                        raise Violation('C02', 'committed_twice', 'uid %d committed at positions %d and %d'
+                                        % (sub['uid'], self.pos_of_uid[sub['uid']], pos))
+                    self.pos_of_uid[sub['uid']] = pos
+                    for (_, _, err, _) in sub['cbs']:
+                        if err in NEVER_APPLIED:
+                            raise Violation('C02', 'failed_but_committed', 'uid %d reported %s but is committed at %d'
+                                            % (sub['uid'], FAIL_NAMES[err], pos), reason=FAIL_NAMES[err])
+                else:
+                    self.obs['ambiguous_commands_committed'] += 1
                 self.mret[pos] = self.model.apply(sub)
                 if self.mret[pos][0] == 'exc':
                     self.failed_pos[pos] = sub
@@ -457,10 +516,10 @@ class Monitors(object):
             if c is None:
                 return None
             if cmd_type(c[1]) == REGULAR:
-                sub = self.cmd2sub.get(c[1])
-                if sub is None:
+                subs = self.cmd2sub.get(c[1])
+                if not subs:
                     return None
-                m.apply(sub)
+                m.apply(subs[0])
         self.mfull_cache[k] = v = (m.full(), m.cheap())
         return v
 
@@ -495,10 +554,12 @@ class Monitors(object):
             _, pos, fid, args, kw, out = e
             self.obs['apply_events'] += 1
             exp = self.next_regular(cur, self.maxc)
-            prev_failed = self.failed_pos.get(pos)
+            if pos in p.raised_pos:
+                raise Violation('C12', 'reapply_after_raise', '%r executes position %d again after the method raised there '
+                                '(applied index stays at %d)' % (p, pos, a1))
+            if out[0] == 'exc':
+                p.raised_pos.add(pos)
             if exp is None or pos != exp:
-                if prev_failed is not None and pos <= cur + 1 and out[0] == 'exc':
-                    raise Violation('C12', 'reapply_after_raise', '%r applies position %d again after it raised' % (p, pos))
                 raise Violation('C01', 'apply_wrong_position',
                                 '%r executed a command as position %d; next committed user command after %d is at %r'
                                 % (p, pos, cur, exp), expected=exp, got=pos)
@@ -533,7 +594,9 @@ class Monitors(object):
                                 % (p, a1, nr), pos=nr)
         if a1 > self.maxc:
             raise Violation('C01', 'applied_uncommitted', '%r applied index %d beyond every reported commit index %d' % (p, a1, self.maxc))
-        # state = replay of prefix
+        # state = replay of prefix (not judged on the memory of a process that was killed in this step)
+        if p.dead:
+            return
         if self.model_broken is None or a1 < self.model_broken:
             mc = self.mcheap.get(a1)
             if mc is not None:
@@ -652,6 +715,24 @@ class Monitors(object):
         if p is None or p.obj is None:
             return
         if p.dead:
+            if not getattr(p, 'final_checked', False) and p.journal is not None:
+                # the step in which the process was killed: what it did before the kill instant was
+                # visible (callbacks fired, messages sent), so its last commits/applies still count
+                p.final_checked = True
+                try:
+                    c1, a1 = p.obj.raftCommitIndex, p.obj.raftLastApplied
+                    if c1 > p.last_commit and c1 <= (p.journal.last_idx() or 0):
+                        self.register_commits(p, p.last_commit, c1)
+                        p.last_commit = c1
+                    if p.events and a1 <= self.maxc:
+                        self.check_applies(p, p.last_applied, a1)
+                        p.last_applied = a1
+                finally:
+                    p.events = []
+                    p.journal.muts[:] = []
+                if self.pending_cb:
+                    self.check_callbacks()
+                return
             p.events = []
             if p.journal is not None:
                 p.journal.muts[:] = []
@@ -691,6 +772,8 @@ class Monitors(object):
         pend, self.pending_cb = self.pending_cb, []
         for (p, sub, res, err) in pend:
             uid = sub['uid']
+            if sub.get('ambiguous'):
+                continue
             if err == 0:
                 pos = self.pos_of_uid.get(uid)
                 if pos is None:
@@ -887,6 +970,8 @@ class Monitors(object):
         if self.pending_cb:
             self.check_callbacks()
         for uid, sub in self.sim.subs.items():
+            if sub.get('ambiguous'):
+                continue
             for (_, res, err, _) in sub['cbs']:
                 if err in NEVER_APPLIED and uid in self.pos_of_uid:
                     raise Violation('C02', 'failed_but_committed', 'uid %d reported %s but is committed at %d'
